@@ -439,6 +439,7 @@ JSON_REPLACEMENTS = [
     {"qname": "q", "text": "t", "tail": None, "children": [], "attributes": {}},
     {"qname": None, "text": None, "tail": None, "children": 5, "attributes": 7},
     "12x", "true", " 1 ", "zz:q", [1, "a", None], [[], {}],
+    {"qname": "q", "type": [1], "value": {}}, {"qname": "q", "type": {"a": 1}, "value": {"a": 1}}, {"qname": "q", "type": "", "value": {}},
 ]
 
 
@@ -485,6 +486,16 @@ def json_value_faults(rng, doc, tier):
                 yield "drop_key", copy.deepcopy(d3)
                 tgt[k + "x"] = val
                 yield "rename_key", d3
+        if isinstance(v, dict) and len(v) == 1 and p and isinstance(next(iter(v.values())), list):
+            # a wrapper object {"wrap": {"name": [...]}}: hoist the list to the parent under its own name
+            d4 = copy.deepcopy(doc)
+            tgt = d4
+            for kk in p[:-1]:
+                tgt = tgt[kk]
+            inner = tgt.pop(p[-1])
+            if isinstance(tgt, dict):
+                tgt.update(inner)
+                yield "hoist_wrapped", d4
         if isinstance(v, list) and v:
             yield "wrap_list", json_set(copy.deepcopy(doc), p, [copy.deepcopy(v)]) if p else [copy.deepcopy(v)]
             yield "unwrap_list", json_set(copy.deepcopy(doc), p, copy.deepcopy(v[0])) if p else copy.deepcopy(v[0])
